@@ -16,7 +16,38 @@ mod native {
     pub fn load(vals: Vec<Vec<u8>>) {
         VALUES.with(|v| *v.borrow_mut() = vals.into());
     }
+    thread_local! {
+        pub static FUZZ: RefCell<Option<u64>> = RefCell::new(None);
+        pub static TRACE: RefCell<Vec<Vec<u8>>> = RefCell::new(Vec::new());
+    }
+    /// developer aid only (harness debugging): random instead of recorded values
+    pub fn set_fuzz(seed: u64) {
+        FUZZ.with(|f| *f.borrow_mut() = Some(seed | 1));
+        TRACE.with(|t| t.borrow_mut().clear());
+    }
+    pub fn trace() -> Vec<Vec<u8>> {
+        TRACE.with(|t| t.borrow().clone())
+    }
     pub fn pop(n: usize) -> Vec<u8> {
+        let fz = FUZZ.with(|f| *f.borrow());
+        if let Some(mut st) = fz {
+            let mut out = Vec::with_capacity(n);
+            // biased towards small values: they are the interesting ones for lengths/kinds
+            for _ in 0..n {
+                st ^= st << 13;
+                st ^= st >> 7;
+                st ^= st << 17;
+                let r = (st >> 24) as u8;
+                let b = match (st >> 40) & 3 { 0 => r & 3, 1 => r & 0x0f, _ => r };
+                out.push(b);
+            }
+            if n > 1 && (st >> 50) & 1 == 0 {
+                for x in out.iter_mut().skip(1) { *x = 0; }
+            }
+            FUZZ.with(|f| *f.borrow_mut() = Some(st));
+            TRACE.with(|t| t.borrow_mut().push(out.clone()));
+            return out;
+        }
         VALUES.with(|v| {
             let mut x = v.borrow_mut().pop_front().unwrap_or_else(|| vec![0u8; n]);
             x.resize(n, 0);
@@ -25,7 +56,7 @@ mod native {
     }
 }
 #[cfg(not(kani))]
-pub use native::{load, Infeasible};
+pub use native::{load, set_fuzz, trace, Infeasible};
 
 macro_rules! any_int {
     ($name:ident, $t:ty, $n:expr) => {
@@ -119,6 +150,7 @@ macro_rules! harness {
             #[kani::unwind($u)]
             #[kani::stub(std::hash::RandomState::new, $crate::sym::fixed_state)]
             #[kani::stub(alloc::fmt::format, $crate::sym::no_format)]
+            #[kani::stub(apache_avro::util::max_allocation_bytes, $crate::sym::limit_model)]
             pub fn check() {
                 body()
             }
@@ -135,4 +167,42 @@ pub fn fixed_state() -> std::hash::RandomState {
 /// harness, and formatting `{:?}` of values/schemas is what CBMC pays most for on error arms.
 pub fn no_format(_args: std::fmt::Arguments<'_>) -> String {
     String::new()
+}
+
+/// Plain-memory model of the write-once allocation limit (`OnceLock<usize>` behind
+/// `util::max_allocation_bytes`): first call wins, every call returns the value in force.
+/// The real `OnceLock` goes through `std::sync::Once` (atomics + futex state machine), which
+/// symex cannot fold, so every `safe_len` outcome would be symbolic and every length-driven
+/// loop unbounded.  The real cell is exercised by the C19 harnesses, which do not use this stub.
+static mut LIMIT_SET: bool = false;
+static mut LIMIT: usize = 0;
+pub fn limit_model(num_bytes: usize) -> usize {
+    unsafe {
+        if !LIMIT_SET {
+            LIMIT = num_bytes;
+            LIMIT_SET = true;
+        }
+        LIMIT
+    }
+}
+
+/// like `harness!` but with the real `OnceLock` behind the allocation limit (C19)
+#[macro_export]
+macro_rules! harness_real_limit {
+    ($(#[$m:meta])* $name:ident, unwind = $u:expr, $body:block) => {
+        pub mod $name {
+            #[allow(unused_imports)]
+            use super::*;
+            $(#[$m])*
+            pub fn body() $body
+            #[cfg(kani)]
+            #[kani::proof]
+            #[kani::unwind($u)]
+            #[kani::stub(std::hash::RandomState::new, $crate::sym::fixed_state)]
+            #[kani::stub(alloc::fmt::format, $crate::sym::no_format)]
+            pub fn check() {
+                body()
+            }
+        }
+    };
 }
